@@ -63,9 +63,18 @@ func (c bcase) String() string {
 	return fmt.Sprintf("plan up%v down%v rbuf=%d half=%v second=%v lateRead=%v", c.p.up, c.p.down, c.p.rbuf, c.p.half, c.p.second, c.p.lateRead)
 }
 
+var prop = flag.String("prop", "C15", "C15|C16")
+
 func build(tier string) {
 	cases = nil
 	th := tier == "thorough"
+	if *prop == "C16" {
+		// one peer sends far more than the buffers on the way can hold while the other does not read for
+		// 13 s: everything sent before the close still arrives
+		cases = append(cases, bcase{p: &plan{up: []int{48 << 20}, down: []int{1}, rbuf: 65536, lateRead: 13 * time.Second}})
+		cases = append(cases, bcase{p: &plan{up: []int{1}, down: []int{48 << 20}, rbuf: 65536, lateRead: 13 * time.Second}})
+		return
+	}
 	sizes := []int{0, 1, 2, 1024, 1025, 32768, 32769, 70000}
 	bufs := []int{1, 7, 4096, 65536}
 	for _, rb := range bufs {
@@ -557,7 +566,7 @@ func evalHTTP(r *rig, c bcase, i int) vx.Exec {
 
 func main() {
 	flag.Parse()
-	en := &vx.Enum{Property: "C15", Name: "bboxbridge",
+	en := &vx.Enum{Property: *prop, Name: "bboxbridge-" + strings.ToLower(*prop),
 		Rule: "cases = write/read plans (two writes per direction over sizes {0,1,2,1024,1025,32768,32769,70000} x read buffers {1,7,4096,65536}; quick: two thirds of the size pairs) alone and with a second, mirrored connection at the same time; half-closing clients with responses up to 1 MiB; (thorough: 8 MiB each way); + plain HTTP requests (5 methods x 4 targets x 4 body sizes) sent to the bridge backend; each goes through the real tcp-bridge-frontend and tcp-bridge-backend processes over loopback; all cases are distinct and non-trivial",
 		Init: func(tier string) {
 			build(tier)
